@@ -30,7 +30,7 @@ impl InnerFunctionManager {
                         min = Some(num);
                     }
                 }
-                Ok(Value::Number(min.unwrap()))
+                min.map_or(Err(Error::ParamInvalid()), |num| Ok(Value::Number(num)))
             }),
         );
 
@@ -44,7 +44,7 @@ impl InnerFunctionManager {
                         max = Some(num);
                     }
                 }
-                Ok(Value::Number(max.unwrap()))
+                max.map_or(Err(Error::ParamInvalid()), |num| Ok(Value::Number(num)))
             }),
         );
 
@@ -53,7 +53,9 @@ impl InnerFunctionManager {
             Arc::new(|params| {
                 let mut ans = Decimal::ZERO;
                 for param in params.into_iter() {
-                    ans += param.decimal()?;
+                    ans = ans
+                        .checked_add(param.decimal()?)
+                        .ok_or(Error::ArithmeticFault("sum".to_string()))?;
                 }
                 Ok(Value::Number(ans))
             }),
@@ -64,7 +66,9 @@ impl InnerFunctionManager {
             Arc::new(|params| {
                 let mut ans = Decimal::ONE;
                 for param in params.into_iter() {
-                    ans *= param.decimal()?;
+                    ans = ans
+                        .checked_mul(param.decimal()?)
+                        .ok_or(Error::ArithmeticFault("mul".to_string()))?;
                 }
                 Ok(Value::Number(ans))
             }),
